@@ -195,7 +195,7 @@ fn all_words(max_len: usize) -> Vec<Vec<u8>> {
 }
 
 pub fn run(ctx: &Ctx) -> Report {
-    let max_len = if cfg!(miri) { 3 } else { ctx.pick(5, 7) };
+    let max_len = if cfg!(miri) { 3 } else { ctx.pick(5, 8) };
     let words = all_words(max_len);
     let types: Vec<i32> = if cfg!(miri) { vec![1, 15, 31, 28] } else { TYPES.to_vec() };
     let pairs: Vec<(i32, i32)> = types.iter().flat_map(|&t| types.iter().filter(move |&&u| u != t).map(move |&u| (t, u))).collect();
